@@ -83,7 +83,7 @@ def check_case(case, opts):
         img1 = os.path.join(sc, "one.sqfs")
         ra = case.get("root_attr")
         # (with --pack-dir the root directory takes its attributes from --defaults)
-        r = vcommon.run([gen] + (["-d", "mode=0%o,uid=%d,gid=%d" % ra] if ra else []) + ["--pack-dir", src, "-c", case["comp"], "-b", str(case["B"]), "-q", img1], timeout=60)
+        r = vcommon.run([gen] + (["-d", "mode=0%o,uid=%d,gid=%d" % tuple(ra)] if ra else []) + ["--pack-dir", src, "-c", case["comp"], "-b", str(case["B"]), "-q", img1], timeout=60)
         if r.rc != 0 or r.timeout or r.sanitizer():
             raise Inconclusive("source image could not be built (C01's business): %s" % r.err[-200:])
         t1 = sqfsimg.Image(open(img1, "rb").read()).tree()
